@@ -334,3 +334,70 @@ def c14(ctx, replay):
                          "shapes x 3 client modes; every successful handshake followed by a 4+4 message compressed exchange with a reference peer that applies "
                          "exactly the agreed context-takeover parameters; Agree is a TLC-checked theorem of the spec")
     ctx.assumptions += ["Go compress/flate is the reference DEFLATE codec", "client_no_context_takeover in a response is at the server's discretion unless the offer carried it"]
+
+
+@check("C09")
+def c09(ctx, replay):
+    # (M) liveness with timers as separately enabled actions
+    for n in ("strict-bounded", "strict-prompt"):
+        rec, _ = ctx.tlc("WSClose", "WSClose.%s.cfg" % n, workers=4, name="WSClose-" + n)
+        ctx.count_model(rec)
+    caught = {}
+    for n in ("dev-unarmed", "dev-selfwait"):
+        rec, out = ctx.tlc("WSClose", "WSClose.%s.cfg" % n, workers=4, expect_ok=False, name="WSClose-" + n)
+        caught[n] = "was violated" in out
+        if not caught[n]:
+            raise Infra("model regression: %s no longer violates its liveness property" % n)
+    ctx.extra["model_catches_deviation"] = caught
+    rec, _ = ctx.tlc("WSConn", "WSConn.live.cfg", name="WSConn-liveness(Close terminates, all calls return; only the 5 s timers)", timeout=2400)
+    ctx.count_model(rec)
+    # (B) adversary scripts x local states against the real code with real timers
+    rows = ctx.path("cb.ndjson")
+    ctx.tlc("WSCloseBoundRows", "CloseBoundRows.cfg", env={"OUT": rows}, workers=2, name="close-bound-table")
+    rep = ctx.drive("closebound", ["-rows", rows, "-seed", ctx.seed] + (["-stride", "2"] if ctx.quick() else []), timeout=600)
+    ctx.absorb(rep)
+    if not ctx.quick():
+        conc_campaign(ctx, 1500, SIG_C09)
+    ctx.extra["rule"] = ("adversaries {echo, late echo, silent, never reads, stall after k header bytes (k in 1,2,3,5,9,10,13), stall after j payload bytes "
+                         "(j in 0,1,50,99), endless small frames, one endless frame, half-close} x local states {idle, reader blocked, message half read, "
+                         "CloseRead active, CloseRead closing on a data message, writer blocked} x {Close, CloseNow} x role, run with real timers; "
+                         "bound = 3 s slack + 5 s per timer the specification allows on that path; distinct = table rows")
+    ctx.assumptions += ["seconds are measured on the real code with 3 s slack; TLC decides which timers a path may need (liveness with the other timers' actions removed)"]
+
+
+@check("C10")
+def c10(ctx, replay):
+    import subprocess, shutil
+    # (M) TLC on the bounded abstraction, mutant must be caught
+    rec, _ = ctx.tlc("WSTimeout", "WSTimeout.cfg", name="timeoutLoop-abstraction")
+    ctx.count_model(rec)
+    rec, out = ctx.tlc("WSTimeout", "WSTimeout.mutant.cfg", expect_ok=False, name="timeoutLoop-abstraction-without-rearm")
+    if "is violated" not in out:
+        raise Infra("model regression: the missing-re-arm mutant is no longer caught")
+    # inductive invariant by Apalache (programs of unbounded length); infrastructure trouble is not a verdict
+    apa = {}
+    adir = ctx.path("apa")
+    os.makedirs(adir, exist_ok=True)
+    shutil.copy(os.path.join(ctx.specdir, "WSTimeout.tla"), adir)
+    for name, args, want in (("init", ["--cinit=ConstInit", "--init=Init", "--inv=IndInv", "--length=0"], "NoError"),
+                             ("step", ["--cinit=ConstInit", "--init=IndInit", "--inv=IndInv", "--length=1"], "NoError"),
+                             ("step-without-rearm", ["--cinit=ConstInitMutant", "--init=IndInit", "--inv=IndInv", "--length=1"], "Error")):
+        p = subprocess.run(["timeout", "300", "apalache-mc", "check"] + args + ["WSTimeout.tla"], cwd=adir, stdout=subprocess.PIPE, stderr=subprocess.STDOUT, text=True)
+        got = "NoError" if "The outcome is: NoError" in p.stdout else ("Error" if "The outcome is: Error" in p.stdout else "unknown")
+        apa[name] = got
+        if got != want:
+            raise Infra("Apalache %s: outcome %s, expected %s" % (name, got, want))
+    ctx.extra["apalache_inductive_invariant"] = apa
+    # (B) programs with cancellations after success / while blocked, (C) their hook traces
+    rows, conn = ctx.path("ctx.ndjson"), ctx.path("ctxconn.ndjson")
+    ctx.tlc("WSTimeoutRows", "Rows.cfg", env={"OUT": rows, "N": 1 if ctx.quick() else 2}, workers=2, name="context-programs")
+    rep = ctx.drive("ctxprog", ["-rows", rows, "-seed", ctx.seed, "-conn-trace", conn], timeout=1200)
+    ctx.absorb(rep)
+    rej, _ = trace_validate(ctx, "TraceConn", "TraceConn.cfg", conn, name="TraceConn(ctxprog)")
+    absorb_rejections(ctx, rej, "TraceConn", conn, only=SIG_C10)
+    conc_campaign(ctx, 150 if ctx.quick() else 2000, SIG_C10)
+    ctx.extra["rule"] = ("all programs of up to N successful calls from {Read of a fragmented message with an interleaved ping, Write, Writer with two chunks, "
+                         "Ping} each under its own context cancelled right after success, optionally ended by a call whose context is cancelled while it is "
+                         "blocked on the transport, inside a message, on the message lock or on a pong; x role x compression; afterwards a full round trip "
+                         "must succeed or the connection must be closed; hook traces validated against the hand-off protocol of TraceConn.tla")
+    ctx.assumptions += ["'promptly' = 2 s measured", "Apalache 0.58 discharges the inductive invariant of the abstraction; its binding to the code is the TraceConn hand-off rules"]
